@@ -4,7 +4,8 @@
 (* every expected value from the recorded inputs.                                     *)
 (*                                                                                    *)
 (* Families (constant Family), each an arithmetic enumeration i = Lo, Lo+Stride, ..   *)
-(* <= Hi of an index space, so that the check can shard and sample it:                *)
+(* <= Hi of an index space, so that the check can shard and sample it (Family "mix"   *)
+(* = a seeded 1-in-N sample of all of them in one run, used by the quick tier):       *)
 (*  "g3"  all sequences of exactly 3 reports over the 96-report universe               *)
 (*        (hash in {h1,h2,h3} x dependencies any subset of {h1,h2,h3,ha,hu}):          *)
 (*        cycles, self-dependencies, duplicate hashes, dependencies on an              *)
@@ -127,17 +128,27 @@ H2(i) == LET j == i - 1
              blocks |-> <<[slot |-> s1, W |-> W12(w1, 1, c), n |-> (IF n1 = 0 \/ c % 5 = 0 THEN 99 ELSE 1)],
                           [slot |-> s1 + Gap(3, g2), W |-> W12(w2, 3, c \div 9), n |-> 99]>>]
 
-Size == CASE Family = "g3" -> 884736 [] Family = "g2" -> 74504 [] Family = "g2s" -> 374114
-          [] Family = "g4" -> 160000 [] Family = "h2" -> 1232450
-CaseAt(i) == CASE Family = "g3" -> G3(i) [] Family = "g2" -> G2(i) [] Family = "g2s" -> G2S(i)
-               [] Family = "g4" -> G4(i) [] Family = "h2" -> H2(i)
+SizeOf(f) == CASE f = "g3" -> 884736 [] f = "g2" -> 74504 [] f = "g2s" -> 374114
+               [] f = "g4" -> 160000 [] f = "h2" -> 1232450 [] OTHER -> 0
+CaseAtF(f, i) == CASE f = "g3" -> G3(i) [] f = "g2" -> G2(i) [] f = "g2s" -> G2S(i)
+                   [] f = "g4" -> G4(i) [] f = "h2" -> H2(i)
 
-Top == IF Hi > Size THEN Size ELSE Hi
+\* one family: indices Lo, Lo+Stride, .. <= Hi
+Top == IF Hi > SizeOf(Family) THEN SizeOf(Family) ELSE Hi
 Count == IF Top < Lo THEN 0 ELSE ((Top - Lo) \div Stride) + 1
-Cases == [j \in 1..Count |-> CaseAt(Lo + (j - 1) * Stride)]
+OneFamily == [j \in 1..Count |-> CaseAtF(Family, Lo + (j - 1) * Stride)]
+
+\* Family = "mix" (quick tier): a seeded 1-in-N sample of every family in one run
+SampleOf(f, stride) == LET off == (Seed * 7919) % stride
+                           first == IF off = 0 THEN stride ELSE off
+                           cnt == ((SizeOf(f) - first) \div stride) + 1
+                       IN [j \in 1..cnt |-> CaseAtF(f, first + (j - 1) * stride)]
+Mix == SampleOf("g2", 9) \o SampleOf("g3", 149) \o SampleOf("g2s", 127) \o SampleOf("g4", 61) \o SampleOf("h2", 601)
+
+Cases == IF Family = "mix" THEN Mix ELSE OneFamily
 
 ASSUME ndJsonSerialize(OutFile, Cases)
-ASSUME PrintT(<<"GEN", Family, Count>>)
+ASSUME PrintT(<<"GEN", Family, Len(Cases)>>)
 GenInit == x = 0
 GenNext == FALSE /\ x' = x
 =============================================================================
